@@ -1093,7 +1093,11 @@ func monitorEvent(sc Scenario, evs []Ev) ([]Violation, map[string]interface{}) {
 				if len(ex) > 140 {
 					ex = ex[:140]
 				}
-				viols = append(viols, Violation{Scenario: sc.ID, Sig: "monitor:event:wait-returned-while-clear",
+				mode := "default-clear"
+				if sc.DefaultSet {
+					mode = "default-set"
+				}
+				viols = append(viols, Violation{Scenario: sc.ID, Sig: "monitor:event:wait-returned-while-clear:" + mode,
 					What: fmt.Sprintf("event(default_set=%v): Wait (goroutine %d, seq %d..%d) returned ok although the event was cleared at seq %d..%d and no Set was called in between",
 						sc.DefaultSet, w.call.G, w.call.Seq, w.ret.Seq, c.call.Seq, c.ret.Seq), Excerpt: ex, Params: sc})
 			}
